@@ -19,22 +19,32 @@ CFGS = [
     {"mem": "art", "vlog": True, "buckets": 3, "vlogsize": 4096, "vallen": 200},
     {"mem": "skiplist", "vlog": True, "buckets": 3, "vlogsize": 1 << 20, "vallen": 64},
     {"mem": "art", "vlog": True, "buckets": 1, "vlogsize": 1 << 20, "vallen": 33},
+    {"mem": "skiplist", "vlog": True, "buckets": 4, "hot": 2, "vlogsize": 2048, "vallen": 100},   # keys move from cold to hot buckets
 ]
 
-OPMAP = {
-    "Rotate": {"op": "Rotate"}, "Flush": {"op": "Flush"},
-    "MoveL0": {"op": "Compact", "kind": "l0", "base": 1},
-    "IngestMerge": {"op": "Compact", "kind": "ingest-keep", "level": 1},
-    "IngestDrain": {"op": "Compact", "kind": "ingest-drain", "level": 1},
-    "CompactL1": {"op": "Compact", "kind": "regular", "level": 1},
-    "Reopen": {"op": "Reopen"}, "GC": {"op": "GC"},
-}
 
 
-def to_ops(hist, versioned):
+BOTTOM = 6  # utils.MaxLevelNum - 1: the level small databases compact into by default
+
+# real versions used for the model's version ranks 1,2,3 (C02): identity, a set straddling the 256 and
+# 65536 boundaries of the big-endian version bytes, and three adjacent values
+VMAPS = [[1, 2, 3], [3, 261, 70000], [255, 256, 257], [65535, 65536, 65537]]
+
+
+def to_ops(hist, versioned, bottom=False, vmap=None):
     """Model actions -> driver operations. Every written value gets a unique suffix so that a
-    read reply identifies exactly one write."""
+    read reply identifies exactly one write. bottom=True lets L0 move to the engine's natural base
+    level (the bottom level for small data) instead of forcing L1."""
     ops = []
+    lvl = BOTTOM if bottom else 1
+    opmap = {
+        "Rotate": {"op": "Rotate"}, "Flush": {"op": "Flush"},
+        "MoveL0": {"op": "Compact", "kind": "l0", "base": 0 if bottom else 1},
+        "IngestMerge": {"op": "Compact", "kind": "ingest-keep", "level": lvl},
+        "IngestDrain": {"op": "Compact", "kind": "ingest-drain", "level": lvl},
+        "CompactL1": {"op": "Compact", "kind": "regular", "level": lvl},
+        "Reopen": {"op": "Reopen"}, "GC": {"op": "GC"},
+    }
     for n, h in enumerate(hist):
         o = h["op"]
         if o == "Set":
@@ -42,13 +52,28 @@ def to_ops(hist, versioned):
         if o in ("Set", "Del"):
             k = "k%d" % h["k"]
             if versioned:
-                ops.append({"op": "SetV" if o == "Set" else "DelV", "k": k, "ver": h["ver"], "v": h["v"]})
+                ver = vmap[h["ver"] - 1] if vmap else h["ver"]
+                ops.append({"op": "SetV" if o == "Set" else "DelV", "k": k, "ver": ver, "v": h["v"]})
             else:
                 ops.append({"op": o, "k": k, "v": h["v"]} if o == "Set" else {"op": "Del", "k": k})
-        elif o in OPMAP:
-            ops.append(dict(OPMAP[o]))
+        elif o in opmap:
+            ops.append(dict(opmap[o]))
         # L0ToL0 is not drivable (needs tables older than 10 s): skipped, see DESIGN.md
     return ops
+
+
+def gen_cover(ctx):
+    """Layout cover: BFS over Cover_Engine.cfg; one shortest history per distinct layout signature."""
+    r = ctx.tlc_or_undecided("Engine", "Cover_Engine.cfg", workers=1, timeout=900)
+    sigs = {}
+    for m in re.finditer(r'<<\s*"COVER",\s*(.*?),\s*"(\[.*?\])"\s*>>\s*\n', r.out, re.S):
+        sig = re.sub(r"\s+", " ", m.group(1))
+        h = json.loads(m.group(2).encode().decode("unicode_escape"))
+        if sig not in sigs or len(h) < len(sigs[sig]):
+            sigs[sig] = h
+    if len(sigs) < 50:
+        raise Undecided("layout cover produced only %d signatures" % len(sigs))
+    return [sigs[k] for k in sorted(sigs)], r
 
 
 def gen_schedules(ctx, cfg, num, depth, seed):
@@ -63,8 +88,23 @@ def gen_schedules(ctx, cfg, num, depth, seed):
     return out
 
 
-def project(ev):
+def pos_of(v, vmap):
+    """Order-preserving position of a real version: written versions map to even positions, gaps to odd."""
+    if v >= 1000000:
+        return 1000000
+    p = 1
+    for r in vmap:
+        if v == r:
+            return p + 1
+        if v > r:
+            p += 2
+    return p
+
+
+def project(ev, vmap=None):
     """Fields the property-layer trace spec needs (TLC's JSON module dislikes nulls)."""
+    if vmap and "ver" in ev:
+        ev = dict(ev); ev["ver"] = pos_of(ev["ver"], vmap)
     e = ev["e"]
     if e == "Maint":
         return {"e": "Maint", "ok": bool(ev.get("ok", True))}
@@ -175,12 +215,24 @@ def run(ctx):
     keys = ["k1", "k2", "k3"]
     scheds = []
     cfgs = CFGS if pid != "C08" else CFGS[2:]
+    ncover = 0
+    if not versioned:
+        cover, cov = gen_cover(ctx)
+        ncover = len(cover)
+        ctx.log("M2: layout cover: %d signatures from %d distinct states" % (ncover, cov.distinct))
+        hists = cover + hists[: max(0, cap - ncover)]
     for i, h in enumerate(hists):
         reps = [cfgs[(i + ctx.seed) % len(cfgs)]] if quick else cfgs
-        for c in reps:
-            s = {"id": len(scheds), "cfg": c, "readall": True, "ops": to_ops(h, versioned)}
+        if quick and i < ncover:  # every layout at least once inline and once through the value log
+            reps = [cfgs[(i + ctx.seed) % 2 + (0 if pid != "C08" else 0)], cfgs[(2 + (i + ctx.seed) % max(1, len(cfgs) - 2)) % len(cfgs)]]
+        for ci, c in enumerate(reps):
+            bottom = (i + ci + ctx.seed) % 2 == 0
+            vmap = VMAPS[(i + ctx.seed) % len(VMAPS)] if versioned else None
+            s = {"id": len(scheds), "cfg": c, "readall": True, "ops": to_ops(h, versioned, bottom=bottom, vmap=vmap), "bottom": bottom}
             if versioned:
-                s["vkeys"], s["vers"] = keys[:2], [1, 2, 3, 1000000]
+                # probe every written version, its neighbours, and the plain API's version
+                probes = sorted({p for v in vmap for p in (v - 1, v, v + 1) if p > 0} | {1000000})
+                s["vkeys"], s["vers"], s["vmap"] = keys[:2], probes, vmap
             else:
                 s["keys"] = keys
             if pid == "C12":
@@ -206,7 +258,7 @@ def run(ctx):
     ctx.log("M2: %d TLC behaviours -> %d schedules (%d recorded replays)" % (len(hists), len(scheds), len(replay_ids)))
     traces = run_driver(ctx, scheds, "main")
     order = sorted(traces)
-    tl = [[project(e) for e in traces[s]] for s in order]
+    tl = [[project(e, scheds[s].get("vmap")) for e in traces[s]] for s in order]
     # ---------------------------------------------------------------- M3
     rejected = ctx.validate_traces("KVRefTrace", "KVRefTrace.cfg", tl, timeout=1200)
     nevents = sum(len(t) for t in tl)
